@@ -127,6 +127,8 @@ type Config struct {
 	ExistingDB     *db.DB // restart on an existing database
 	ExistingApp    *MockABI
 	GenesisTimeFix uint32 // reuse the genesis timestamp of an earlier instance (restart)
+	FS             vfs.FS // run pebble on this file system (crash simulation); nil = fresh in-memory FS
+	RecoverApp     bool   // rebuild the mock application's state-root history from the chain found in the DB
 }
 
 func DefaultConfig(n int) Config {
@@ -455,7 +457,11 @@ func New(cfg Config) (*Node, error) {
 	if cfg.ExistingDB != nil {
 		n.DB = cfg.ExistingDB
 	} else {
-		d, err := db.VerifOpen("", &pebble.Options{FS: vfs.NewMem(), MemTableSize: 256 << 10, Cache: sharedCache, DisableAutomaticCompactions: true})
+		var fs vfs.FS = vfs.NewMem()
+		if cfg.FS != nil {
+			fs = cfg.FS
+		}
+		d, err := db.VerifOpen("", &pebble.Options{FS: fs, MemTableSize: 256 << 10, Cache: sharedCache, DisableAutomaticCompactions: true})
 		if err != nil {
 			return nil, err
 		}
@@ -473,6 +479,16 @@ func New(cfg Config) (*Node, error) {
 	}
 	n.Chain = blockchain.NewChain(&blockchain.ChainConfig{ChainID: cfg.ChainID, MaxTransactionsLength: cfg.MaxPayload, MaxBlockCache: cfg.MaxBlockCache, KeepEventsForHeights: cfg.KeepEvents})
 	n.Chain.Init(n.Genesis, n.DB)
+	if cfg.RecoverApp {
+		n.App.Roots = nil
+		for h := cfg.GenesisHeight; ; h++ {
+			hd, err := n.Chain.DataAccess().GetBlockHeaderByHeight(h)
+			if err != nil {
+				break
+			}
+			n.App.Roots = append(n.App.Roots, hd.StateRoot)
+		}
+	}
 	conn := p2p.NewConnection(silent, &p2p.Config{ChainID: cfg.ChainID})
 	n.Exec = consensus.NewExecuter(&consensus.ExecuterConfig{CTX: context.Background(), ABI: n.App, Chain: n.Chain, Conn: conn, BlockTime: cfg.BlockTime, BatchSize: cfg.BatchSize})
 	if err := n.Exec.Init(&consensus.ExecuterInitParam{CTX: context.Background(), Logger: silent, Database: n.DB, GenesisBlock: n.Genesis}); err != nil {
